@@ -20,11 +20,18 @@ type Parser struct {
 
 // NewParser creates and returns new Parser
 func NewParser(lexer *scanner.Lexer, config conf.Config) *Parser {
-	return &Parser{
+	p := &Parser{
 		Lexer:          lexer,
 		errHandlerFunc: config.ErrorHandlerFunc,
 		builder:        position.NewBuilder(),
 	}
+
+	// grammar actions report semantic errors through errHandlerFunc directly
+	if p.errHandlerFunc == nil {
+		p.errHandlerFunc = func(*errors.Error) {}
+	}
+
+	return p
 }
 
 // Lex proxy to scanner Lex
